@@ -143,6 +143,7 @@ type VC struct {
 	nextC     string // name of allocation counter component
 	uses      map[string]bool // contracts used (assumed) at call sites
 	sliceUFs  [][2]string     // uninterpreted functions of one slice: (name, row sort)
+	localCells [][2]string    // (component, ref) of the local variables' own cells
 }
 
 func newVC(eng *Engine, fn *ssa.Function, spec *FuncSpec) *VC {
@@ -295,7 +296,14 @@ func (vc *VC) sortOf(t types.Type) string {
 var aliasRe = regexp.MustCompile(`\b(byte|rune)\b`)
 
 func typeKey(t types.Type) string {
-	s := types.TypeString(t, func(p *types.Package) string { return p.Name() })
+	s := types.TypeString(t, func(p *types.Package) string {
+		// the repository's and the standard library's packages have unique names among those we load,
+		// except internal twins (sync / internal/sync): disambiguate internal ones by path
+		if strings.Contains(p.Path(), "internal/") {
+			return strings.ReplaceAll(p.Path(), "/", "_")
+		}
+		return p.Name()
+	})
 	s = aliasRe.ReplaceAllStringFunc(s, func(m string) string {
 		if m == "byte" {
 			return "uint8"
@@ -323,15 +331,24 @@ func (vc *VC) structSort(named *types.Named, st *types.Struct) string {
 	for i := 0; i < st.NumFields(); i++ {
 		f := st.Field(i)
 		fs := vc.sortOf(f.Type())
-		fields = append(fields, fmt.Sprintf("(%s_%s %s)", name, sanitize(f.Name()), fs))
+		fields = append(fields, fmt.Sprintf("(%s_%s %s)", name, fieldName(st, i), fs))
 	}
 	vc.emit(fmt.Sprintf("(declare-datatypes ((%s 0)) (((mk_%s %s))))", name, name, strings.Join(fields, " ")))
 	return name
 }
 
+// fieldName: sanitized field name; blank fields get their index so accessors stay distinct.
+func fieldName(st *types.Struct, i int) string {
+	n := st.Field(i).Name()
+	if n == "_" {
+		return fmt.Sprintf("blank%d", i)
+	}
+	return sanitize(n)
+}
+
 func (vc *VC) fieldAcc(structT types.Type, i int) string {
 	st, _ := isStruct(structT)
-	return fmt.Sprintf("%s_%s", vc.sortOf(structT), sanitize(st.Field(i).Name()))
+	return fmt.Sprintf("%s_%s", vc.sortOf(structT), fieldName(st, i))
 }
 
 func (vc *VC) zeroOfSort(sort string, t types.Type) string {
@@ -515,7 +532,7 @@ func (vc *VC) comp(name, sort string) string {
 
 func (vc *VC) fieldComp(structT types.Type, i int) string {
 	st, _ := isStruct(structT)
-	name := "F_" + strings.TrimPrefix(vc.sortOf(structT), "S_") + "." + sanitize(st.Field(i).Name())
+	name := "F_" + strings.TrimPrefix(vc.sortOf(structT), "S_") + "." + fieldName(st, i)
 	return vc.comp(name, fmt.Sprintf("(Array Int %s)", vc.sortOf(st.Field(i).Type())))
 }
 
